@@ -42,6 +42,34 @@ CHECKS["C41"] = dict(
               "bounded run-time contract on the real engine",
     design_ref="5/C41")
 
+CHECKS["C26"] = dict(
+    level="exploration",
+    text="Deductive: update_new_rows_map / translate_new_row_ids and their composition (last "
+         "mapping wins, non-negative and unmapped ids are identities, frame) and "
+         "_reject_unresolved_temp_ids (raises iff a negative id survives) are proved for all "
+         "inputs. Bounded: whole bundles using temporary ids through the real engine are compared "
+         "with the same actions applied with the allocated ids substituted; unknown negative "
+         "reference ids must be rejected without trace. Claimed at the weaker (bounded) level.",
+    note="proof part assumes the _forTable stub and dict.update semantics; bounded part: 15 "
+         "follow-up actions, ordered selections up to 2/3, one document.",
+    technique="contract-based deductive verification of the id-map functions (own AST->SMT VC "
+              "generator, z3/cvc5) + bounded run-time contract on bundles",
+    design_ref="5/C26")
+
+CHECKS["C27"] = dict(
+    level="exploration",
+    text="Deductive: the id-filling slice of doBulkAddOrReplace is proved to keep explicit ids, "
+         "give placeholders fresh increasing ids above every existing row, reject ids over "
+         "1,000,000 - and the statement's 'distinct' / 'positive' postconditions are obligations "
+         "too. Bounded: BulkAddRecord/ReplaceTableData/AddRecord through the real engine for all "
+         "id lists up to length 2/3 over a 10-value pool: returned ids are exactly the new rows, "
+         "unsatisfiable requests are rejected without trace.",
+    note="slice selected structurally; next_row_id() above all existing ids is assumed (RowIDs "
+         "lemma); rest of the method only covered by the bounded tier.",
+    technique="contract-based deductive verification of the allocation loop (own AST->SMT VC "
+              "generator, z3/cvc5) + bounded run-time contract through the engine",
+    design_ref="5/C27")
+
 NOT_APPLICABLE = {
   "C30": "quantifies over interpreter configurations (PYTHONHASHSEED) and relates two separate "
          "processes; no pre/postcondition on a call inside one process can mention the hash seed "
